@@ -314,6 +314,9 @@ func crashAndRecover(cs *c07Case, k int, name string, lo, hi uint64, info map[st
 	// restart on the same directory through the normal start-up path
 	b, err := sut.Start(sut.Options{DataDir: dataDir, Env: envq})
 	if err != nil {
+		if errors.Is(err, sut.ErrTimeout) || strings.Contains(err.Error(), "timed out") {
+			return pt.Inconclusivef("restart after the crash did not become ready within the time budget: %v", err)
+		}
 		return fmt.Errorf("restart after the crash failed: %v", err)
 	}
 	defer b.Close()
